@@ -101,6 +101,10 @@ def object_specs(rng, n_random, tier, kinds=None, with_tables=True):
         for _ in range(max(2, n_random // 12)):
             cfg = dict(rng.choice(zoo.CONFIGS)); cfg['min_freq_mod'] = None
             specs.append(('MulticlassCarver', multiclass_case(rng), cfg))
+    if 'MulticlassCarver' in kinds:
+        from rtc.c12_multiclass import table_mc_case
+        for i in range(4 if tier == 'quick' else 30):
+            specs.append(('MulticlassCarver', table_mc_case(rng, i), dict(min_freq=0.05, max_n_mod=rng.choice([2, 3]), sort_by='tschuprowt', dropna=True, output_dtype='float', min_freq_mod=None)))
     if with_tables:
         for case, cfg in table_cases(rng, max(10, n_random // 3), tier):
             k = 'BinaryCarver' if case['target'] == 'binary' else 'ContinuousCarver'
